@@ -1,8 +1,7 @@
 (** C13 - no input crashes the assembler (model level, partial).
-    In the model the only partial Go operations reachable in codegen are those of handleINT
-    (operand count / ParseInt(...,10,8)); every other handler returns an error value.  So for
-    every ocode list all of whose INT operands are decimal int8 values, and every encoder that
-    does not itself panic, the emission fold cannot end in a panic.  Stack exhaustion
+    In the model every codegen handler returns an error value instead of panicking (handleINT did
+    panic until fix 5b154ef).  So for every ocode list and every encoder that does not itself
+    panic, the emission fold cannot end in a panic.  Stack exhaustion
     (self-referential EQU, deep nesting), allocation failure (huge RESB) and running time are
     runtime behaviour outside the model: see known findings and the fuzz/scaling exploration. *)
 From Coq Require Import List ZArith String Bool.
@@ -12,10 +11,15 @@ Local Open Scope Z_scope.
 
 Theorem C13_no_panic : forall E m st dol,
   (forall md s mn ops, enc_emit E md s mn ops <> EPanic) ->
-  forall os acc d, forallb int_ok os = true -> codegen E m st dol acc d os <> GPanic.
+  forall os acc d, codegen E m st dol acc d os <> GPanic.
 Proof. exact codegen_no_panic. Qed.
 Print Assumptions C13_no_panic.
 
-Theorem C13_int_panic_refuted : exists E m st, codegen E m st 0 [] false [OInt (Some 128)] = GPanic.
-Proof. exists {| enc_est := fun _ _ _ => None; enc_kind_ok := fun _ => false; enc_emit := fun _ _ _ _ => Bytes []; enc_diag := fun _ _ _ => false; enc_unmodelled := fun _ _ _ => false |}, M16, []. reflexivity. Qed.
-Print Assumptions C13_int_panic_refuted.
+(* INT with a vector outside 0..255 is now diagnosed, not a panic (fix 5b154ef) *)
+Theorem C13_int_out_of_range_diagnosed : forall E m st dol len z, ~ (0 <= z <= 255) -> gen_ocode E m st dol len (OInt (Some z)) = BytesDiag [].
+Proof.
+  intros E m st dol len z H. cbn [gen_ocode]. unfold in_range.
+  destruct (0 <=? z) eqn:A; destruct (z <=? 255) eqn:B; cbn [andb]; try reflexivity.
+  apply Z.leb_le in A. apply Z.leb_le in B. exfalso. apply H. split; assumption.
+Qed.
+Print Assumptions C13_int_out_of_range_diagnosed.
